@@ -345,7 +345,14 @@ def body_for(desc, ctx):
                 raise exc(50)
             base = SimSync() if desc["form"] == "exec_sync" else SimPool(1)
             cls = FlatMapExecutor if desc["flat"] else MapExecutor
-            ex = cls(base, fn, error_fn=ef)
+            # the documented constructor: (delegate, fn, logger, name, error_fn=...) - every second scenario passes the logger (and
+            # name) positionally; it must stay a logger and never become a mapping function
+            import logging as _logging
+            if desc.get("idx", 0) % 2 == 1:
+                lg = _logging.getLogger("c13")
+                ex = cls(base, fn, lg, "c13n") if ef is None else cls(base, fn, lg, error_fn=ef)
+            else:
+                ex = cls(base, fn, error_fn=ef)
             ctx.ex = ex
             out = ex.submit(callable_)
         ctx.out = out
@@ -453,6 +460,8 @@ def py_spec(desc):
 def run_one(desc):
     if desc.get("family") == "chain":
         return run_chain(desc)
+    if desc.get("family") == "zip-race":
+        return run_zip_race(desc)
     wrapfut.install()
     ctx = Ctx()
     s, w = run(body_for(desc, ctx), **sched_kwargs(desc))
@@ -485,7 +494,65 @@ def run_one(desc):
     return r
 
 
+def zip_race_body(desc, ctx):
+    """the output of f_zip(a, b) is completed by a finisher thread (it completes a, then b) while a builder thread registers a
+    done-callback on it: whatever the interleaving, the callback runs exactly once"""
+    from more_executors.futures import f_zip
+
+    def body(s, w):
+        a, b = SimFuture(), SimFuture()
+        out = f_zip(a, b)
+        ctx.runs = []
+
+        def finish():
+            for f, v in ((a, 1), (b, 2)):
+                s.yield_point("complete")
+                if f.set_running_or_notify_cancel():
+                    f.set_result(v)
+
+        def build():
+            s.yield_point("api")
+            out.add_done_callback(lambda f: ctx.runs.append(f.done()))
+        ct = s.spawn(finish, name="finisher")
+        bt = s.spawn(build, name="builder")
+        s.block(lambda: ct.state == "done" and bt.state == "done", None, ("cjoin", ct.tid))
+        ctx.out_done = out.done()
+    return body
+
+
+def run_zip_race(desc):
+    wrapfut.install()
+    ctx = Ctx()
+    s, w = run(zip_race_body(desc, ctx), **sched_kwargs(desc))
+    hits = []
+    if s.end_reason != "done":
+        hits.append(hit("C13/stuck:%s" % s.end_reason, "zip race scenario ended with %s; parked %r" % (s.end_reason, s.parked())))
+    elif getattr(ctx, "out_done", False) and len(ctx.runs) != 1:
+        hits.append(hit("C13/callback-count:output-future", "a done-callback registered on the output of f_zip while it was being completed "
+                        "ran %d times (the output is done)" % len(ctx.runs)))
+    return {"hits": hits, "blocks": [], "verdicts": [], "stats": {"family_zip_race": 1}, "schedule": list(s.chooser.record), "fingerprint": None}
+
+
 def pair_race_search(budget_s=90):
+    import time as _t
+    t0 = _t.time()
+    # the output future of f_zip (an `_OutputFuture`): the finisher has about 22 hot yields, the builder about 7
+    base = dict(family="zip-race", idx=1, seed=1, mode="holdat", p_switch=0.0, trace_lines=True, hold_at=None)
+    for i in range(1, 31):
+        for j in range(1, 11):
+            if _t.time() - t0 > budget_s * 0.3:
+                break
+            d = dict(base, hold_at=[[1, i], [2, j]])
+            r = run_zip_race(d)
+            for hh in r["hits"]:
+                hh = dict(hh)
+                hh["desc"] = d
+                hh["schedule"] = r["schedule"]
+                return hh
+    return _pair_race_search_chain(max(10.0, budget_s - (_t.time() - t0)))
+
+
+def _pair_race_search_chain(budget_s=90):
     """systematic search for a lost / duplicated callback: a finisher completes the input of a two-stage chain while a builder
     attaches the second stage to the first stage's (library) future; every PAIR of suspension points (finisher at its i-th hot yield,
     builder at its j-th) is tried - held threads are released oldest first, which realises `A pauses inside its window, B runs into
